@@ -47,43 +47,6 @@ def _bname(k):
     return k
 
 
-def _rule_1_fragment(ctx):
-    em, t = _tables(ctx)
-    for name in ('BASE_NUMBERS', 'BIT_WIDTHS', 'BOUNDS'):
-        if name not in t:
-            raise AnchorMissing(f'engineering.{name}')
-    node, base_numbers = t['BASE_NUMBERS']
-    bn = {_bname(k): v for k, v in base_numbers.items()}
-    ctx.expect(bn == BASES, node, 'BASE_NUMBERS', f'base numbers are {bn}, expected {BASES}')
-    node, widths = t['BIT_WIDTHS']
-    bw = {_bname(k): v for k, v in widths.items()}
-    for b, base in BASES.items():
-        want = 10 * int(_math.log2(base))
-        ctx.expect(bw.get(b) == want, node, f'BIT_WIDTHS[{b}]', f'bit width of {b} is {bw.get(b)}, expected 10 digits x log2({base}) = {want}')
-    node, bounds = t['BOUNDS']
-    got = {}
-    for k, v in bounds.items():
-        got[frozenset(_bname(x) for x in k)] = v
-    names = ['bin', 'oct', 'hex', 'dec']
-    for i, a in enumerate(names):
-        for b in names[i + 1:]:
-            ws = [bw[x] for x in (a, b) if x in bw]
-            want = 2 ** (min(ws) - 1)
-            key = frozenset([a, b])
-            ctx.expect(got.get(key) == want, node, f'BOUNDS[{a},{b}]',
-                       f'window bound for {a}<->{b} is {got.get(key)}, expected 2^{min(ws) - 1} = {want}')
-    if 'PERMITTED_DIGITS' in t:
-        node, digits = t['PERMITTED_DIGITS']
-        pd = {_bname(k): set(v) for k, v in digits.items()}
-        want = {'bin': set('01'), 'oct': set('01234567'), 'hex': set('0123456789ABCDEFabcdef')}
-        for b in want:
-            ctx.expect(pd.get(b) == want[b], node, f'PERMITTED_DIGITS[{b}]',
-                       f'permitted digits of {b} are {sorted(pd.get(b, []))}, expected {sorted(want[b])}')
-    else:
-        ctx.bad(em.func('handle_number'), 'PERMITTED_DIGITS table', 'the table of permitted digits per base is gone')
-    ctx.floor(13, 'table entries')
-
-
 def _rule_2_fragment(ctx):
     em = _em(ctx)
     names = [f'{a}2{b}'.upper() for a in ('bin', 'oct', 'hex', 'dec') for b in ('bin', 'oct', 'hex', 'dec') if a != b]
@@ -216,60 +179,6 @@ def _rule_3_fragment(ctx):
     ctx.expect(order == ['handle_places', 'handle_number', 'conversion'], cb, 'validation precedes conversion',
                f'convert_bases calls {order}: inputs must be validated before the conversion')
     ctx.floor(45, 'guard decisions at critical points')
-
-
-def _rule_4_fragment(ctx):
-    em = _em(ctx)
-    conv = ctx.func('xlfunctions.engineering', 'conversion')
-    p = func_params(conv)
-    origin, dest = p[1], p[2]
-
-    def uses(node):
-        return names_in(node) & {origin, dest}
-    ints = [c for c in flow.calls_in(conv) if isinstance(c.func, ast.Name) and c.func.id == 'int' and len(c.args) == 2]
-    if ints:
-        ctx.expect(uses(ints[0].args[1]) == {origin}, conv, 'parse base comes from the origin',
-                   f'the digit string is parsed in base `{ast.unparse(ints[0].args[1])}`')
-    masks = [a for a in walk_local(conv) if isinstance(a, ast.Assign) and isinstance(a.value, ast.BinOp) and isinstance(a.value.op, ast.LShift)]
-    ok = bool(masks) and uses(masks[0].value) == {origin}
-    ctx.expect(ok, conv, 'sign mask from the origin width', 'the two\'s-complement sign mask is not 1 << (width of the origin - 1)')
-    if masks:
-        try:
-            it = Interp(ctx.a, em, {origin: Ref('builtin:bin')})
-            it.stmt(masks[0])
-            mval = it.env[masks[0].targets[0].id]
-            ctx.expect(mval == 1 << 9, conv, 'sign mask value for binary = 2^9', f'the binary sign mask is {mval}, expected {1 << 9}')
-        except Unmodelled:
-            ctx.unmodelled(masks[0], 'sign mask expression')
-    wraps = [a for a in walk_local(conv) if isinstance(a, ast.AugAssign) and isinstance(a.op, ast.Add)]
-    ok = bool(wraps) and uses(wraps[0].value) == {dest} and isinstance(wraps[0].value, ast.BinOp) and isinstance(wraps[0].value.op, ast.LShift)
-    ctx.expect(ok, conv, 'negative results wrap by 2^(destination width)', 'negative values are not wrapped with 1 << width of the destination')
-    if wraps:
-        conds = flow.path_conditions(wraps[0])
-        ctx.expect(any(c.polarity for c in conds if c.kind == 'if'), wraps[0], 'wrap only for negative values', 'the wrap is applied unconditionally')
-    fmt = [c for c in flow.calls_in(conv) if isinstance(c.func, ast.Name) and c.func.id == dest]
-    ok = len(fmt) == 1
-    ctx.expect(ok, conv, 'formatter is the destination base', 'the result is not formatted with the destination base function')
-    if fmt:
-        par = fmt[0]._parent
-        sl = isinstance(par, ast.Subscript) and isinstance(par.slice, ast.Slice) and isinstance(par.slice.lower, ast.Constant) \
-            and par.slice.lower.value == 2 and par.slice.upper is None
-        up = any(isinstance(c, ast.Call) and isinstance(c.func, ast.Attribute) and c.func.attr == 'upper' and fmt[0] in list(ast.walk(c))
-                 for c in flow.calls_in(conv))
-        ctx.expect(sl and up, conv, 'prefix stripped, digits upper-cased', 'the formatted digits do not lose the 0b/0o/0x prefix or are not upper-cased')
-    bl = [s for s in walk_local(conv) if isinstance(s, ast.Subscript) and ast.unparse(s.value) == 'BOUNDS']
-    ok = bool(bl) and uses(bl[0].slice) == {origin, dest}
-    ctx.expect(ok, conv, 'window bound looked up by the {origin, destination} pair', 'the window bound is not selected by both bases')
-    pz = em.func('pad_zeroes')
-    pp = func_params(pz)
-    it_ok = True
-    for s, neg, places, want in (('101', False, 8, '00000101'), ('101', False, None, '101'), ('1111111011', True, 10, '1111111011'),
-                                 ('101', False, 2, 'raise'), ('101', False, 3, '101')):
-        it = Interp(ctx.a, em, {pp[0]: s, pp[1]: neg, pp[2]: places})
-        out = it.run(pz.body)
-        got = 'raise' if out.end == 'raise' else out.value
-        ctx.expect(got == want, pz, f'pad_zeroes({s!r}, negative={neg}, places={places})', f'pad_zeroes gives {got!r}, expected {want!r}')
-    ctx.floor(12, 'role obligations')
 
 
 def rule_5(ctx):
